@@ -10,7 +10,8 @@ from . import c01
 
 PID = 'C16'
 LEVEL = 'exploration'
-RULE = ('Generated level-0 and hierarchical decks whose surfaces carry * '
+RULE = ('Generated level-0, hierarchical and transformation (surface TR / '
+        'cell TRCL, every surface kind) decks whose surfaces carry * '
         '(reflecting) and + (white) flags at random, with flagged and '
         'unflagged duplicates of flagged surfaces under smaller and larger '
         'numbers (references re-pointed at random), flagged surfaces that no '
@@ -52,10 +53,19 @@ ASSUMPTIONS = [
 
 @st.composite
 def bc_case(draw, tier='quick'):
-    which = draw(st.sampled_from(['level0', 'level0', 'hier']))
+    which = draw(st.sampled_from(['level0', 'level0', 'hier', 'tr']))
     if which == 'level0':
         case = draw(c01.level0_case(tier))
         case['box'] = 6.0
+    elif which == 'tr':
+        # flagged surfaces that carry a TR number or bound a cell under TRCL
+        from . import c04
+        case = draw(c04.tr_case(tier, focus=draw(st.sampled_from(
+            [None, 'special', 'axis']))))
+        case['box'] = 8.0
+        s0 = case['deck']['surfaces'][0]
+        if s0['kind'].lower() not in mgeom.MACRO_KINDS:
+            s0['bc'] = draw(st.sampled_from(['*', '+']))
     else:
         case = draw(gen_hier.hier_case(tier, {'lattice': False,
                                               'max_depth': 2}))
@@ -165,10 +175,18 @@ def surface_frames(deck):
         by_u.setdefault(c.get('u') or 0, []).append(c)
     place = {}
 
-    def visit(u, P, depth):
+    def visit(u, chain, depth):
         if depth > 8:
             raise mgeom.ModelError('universe nesting too deep')
-        place.setdefault(u, []).append(P)
+        # the placement through the whole chain, and through every inner
+        # part of it: the converter moves a universe outwards level by level
+        # and keeps the intermediate copies of its (flagged) surfaces, which
+        # de-duplication may merge with a surface that is used
+        for k in range(len(chain) + 1):
+            P = mgeom.IDENTITY
+            for T in chain[k:]:
+                P = P.compose_after(T)
+            place.setdefault(u, []).append(P)
         for c in by_u.get(u, []):
             f = c.get('fill')
             if not f:
@@ -179,16 +197,23 @@ def surface_frames(deck):
             Tc = loc.cell_trcl(c)
             T = Tf if Tf is not None else (Tc if Tc is not None
                                            else mgeom.IDENTITY)
-            visit(f['u'], P.compose_after(T), depth + 1)
-    visit(0, mgeom.IDENTITY, 0)
+            visit(f['u'], chain + (T,), depth + 1)
+    visit(0, (), 0)
     frames = {}
 
     def walk(expr, P, owner, stack):
         if expr is None:
             return
         if expr[0] in ('s', 'f'):
+            sid = abs(expr[1])
+            if sid not in loc.surfs and sid >= 1000 and \
+                    sid // 1000 in cells and sid % 1000 in loc.surfs:
+                # implicit number 1000*cell+surface: the surface as moved by
+                # that cell's TRCL
+                owner = cells[sid // 1000]
+                sid = sid % 1000
             Tc = loc.cell_trcl(owner) or mgeom.IDENTITY
-            frames.setdefault(abs(expr[1]), []).append(P.compose_after(Tc))
+            frames.setdefault(sid, []).append(P.compose_after(Tc))
         elif expr[0] == '#':
             n = cells.get(expr[1])
             if n is not None and n['id'] not in stack:
@@ -372,7 +397,7 @@ def check(case):
                 ws.add(sid)
         written[s['id']] = ws
     entries = list(t4.bcs)
-    level0_only = not any(c.get('u') for c in deck['cells'])
+    level0_only = not any(c.get('u') or c.get('trcl') for c in deck['cells'])
     used = used_by_converted_cells(deck)
     if not level0_only:
         return hierarchical_verdict(deck, t4, entries, flagged, trs, Q, text,
@@ -399,6 +424,13 @@ def check(case):
         n = sum(1 for kind, sid in entries
                 if kind == KIND[s['bc']] and sid in ws)
         if dedup_on:
+            # one entry; when several flagged cards have this zero set up to
+            # the last bits (e.g. one rotation spelled in cosines and in
+            # degrees) they need not be merged, and each keeps its entry
+            twins = sum(1 for s2 in flagged if s2['bc'] == s['bc']
+                        and written[s2['id']] == ws)
+            if 1 <= n <= max(1, twins):
+                continue
             want = 1
         else:
             want = sum(1 for s2 in flagged
